@@ -134,7 +134,8 @@ class HookedArmV6(ArmV6):
         return True
 
     def instr_is_pl0_undefined(self, instr):
-        return False
+        # a deterministic stand-in for the IMPLEMENTATION DEFINED set of CP15 encodings that are UNDEFINED at PL0: those with opc2<0> = 1
+        return bool((instr >> 5) & 1)
 
     def coproc_send_one_word(self, w, cp, instr):
         self.cplog.append(('send1', w, cp))
